@@ -244,6 +244,11 @@ def runDtcwt (op : String) (ps : List Int) (ts : List (Option (T α))) : Res α 
   | "spec_colfilter", [], [some h, some x] => .ok [some (ofL1 (Spec.colfilter h.l1 x.l1))]
   | "spec_coldfilt", [hp], [some ha, some hb, some x] => .ok [some (ofL1 (Spec.coldfilt ha.l1 hb.l1 (boolOf hp) x.l1))]
   | "spec_colifilt", [hp], [some ha, some hb, some x] => .ok [some (ofL1 (Spec.colifilt ha.l1 hb.l1 (boolOf hp) x.l1))]
+  /- the reference forward pyramid on one image: J | h0o h1o h0a h0b h1a h1b (raw tables) | x (H×W)  ->  low, then per level (6,h,w,2) -/
+  | "spec_forward", [J], [some h0o, some h1o, some h0a, some h0b, some h1a, some h1b, some x] =>
+    if J < 1 then .bad else
+    let r := Spec.refForward s h0o.l1 h1o.l1 h0a.l1 h0b.l1 h1a.l1 h1b.l1 (J.toNat - 1) x.l2
+    .ok (some (ofL2 r.1) :: r.2.map fun bands => some (ofL4 (bands.map l3OfCplx)))
   | "FWD_J1_bwd", [o, ri, sym, _skip], [some h0, some h1, some dl, dh] => resOfOpt do
       let bands ← (match dh with
         | none => some none
